@@ -7,6 +7,10 @@ package jsonparser
 
 // C10: whatever bytes a peer sends, parsing the header either fails with an error or yields a header
 // with a non-negative attachment count; it never panics (all index/slice/nil obligations are generated and discharged).
+// esc(d, s, i): the byte at i of the JSON string literal opened by the quote at s is escaped - preceded by a backslash
+// that is not itself escaped. The literal handed to the JSON decoder as the event name ends at an UNescaped quote
+// (C01/C09: a name such as `say \"hi\"` or one ending in a backslash is neither cut short nor run over).
+//@ define esc(d []byte, s int, i int) bool = i - 1 > s && d[i-1] == 92 && !esc(d, s, i - 1)
 //@ func (*Parser).parseHeader
 //@   requires p.json != nil
 //@   modifies maxmake()
@@ -20,6 +24,11 @@ package jsonparser
 //@     requires idparsed == 1 && *value == idres [C09.dec.id.full.uint64.range]
 //@   loop 0 invariant i >= 0 && i <= len(data) && (forall k int :: 0 <= k && k < i ==> data[k] != 44)
 //@   loop 4 invariant k >= start && k < end && end < len(data) && start >= 0
+//@   loop 4 invariant backslashes >= 0 && (esc(data, start, end) == (((backslashes % 2) == 1) != esc(data, start, k + 1)))
+//@   callsite Unmarshal
+//@     requires data[end] == 34 && !esc(data, start, end) [C09.dec.eventname.ends.at.an.unescaped.quote]
+//@     requires forall q int :: start < q && q < end && data[q] == 34 ==> esc(data, start, q) [C09.dec.eventname.ends.at.the.first.unescaped.quote]
+//@   loop 3 invariant end > start && (forall q int :: start < q && q < end && data[q] == 34 ==> esc(data, start, q))
 //@   ensures err == nil && header.ID != nil ==> len(buf) == 0 || buf[0] < 48 || buf[0] > 57 [C09.dec.id.takes.all.digits]
 //@   ensures err == nil ==> len(header.Namespace) >= 1 [C09.dec.namespace.nonempty]
 //@   ensures err == nil ==> header.Type == old(data[0]) - 48 [C09.dec.type.digit]
